@@ -10,6 +10,7 @@ import (
 	"math/rand"
 	"net"
 	"os"
+	"os/exec"
 	"path/filepath"
 	"sort"
 	"strings"
@@ -410,6 +411,21 @@ func (rangeEngine) Run(ctx *fw.Ctx, cs any) {
 					// whose stored lease still runs longer
 					newLease = (r.lease / time.Duration(2+r.rng.Intn(5))).Round(time.Second).String()
 					ctx.Count("range.restarts_with_shorter_lease", 1)
+				}
+			}
+			if os.Getenv("VERIF_NETNS") == "1" && len(r.m.Bind) > 0 && r.rng.Intn(3) == 0 {
+				// meanwhile one of the leased addresses has become an address of the server host itself (a
+				// service address brought up on lo, an operator's mistake): the database is still the plugin's own
+				var addrs []uint32
+				for _, a := range r.m.Bind {
+					addrs = append(addrs, a)
+				}
+				sort.Slice(addrs, func(i, j int) bool { return addrs[i] < addrs[j] })
+				x := model.U32IP(addrs[r.rng.Intn(len(addrs))]).String() + "/32"
+				if exec.Command("ip", "addr", "add", x, "dev", "lo").Run() == nil {
+					defer exec.Command("ip", "addr", "del", x, "dev", "lo").Run()
+					r.tr("host address %s added to lo", x)
+					ctx.Count("range.leased_address_became_a_host_address", 1)
 				}
 			}
 			h, err := r.setup(r.db, r.m.Start, newEnd, newLease)
